@@ -3,16 +3,17 @@
    Only statements closed by `exact`; the proofs live in Chain/ChainProofs.v.
    Model: Chain/ChainModel.v (validate / auth_api / parse_gate; first argument true = the code with
    pending-fixes/C03-*.patch applied, false = the pinned code).  Spec: Chain/ChainSpec.v.
-   sig_ok (psVerifySig) is universally quantified: the theorems hold whatever signatures verify. *)
+   sig_ok (psVerifySig) is universally quantified: the theorems hold whatever signatures verify.
+   K is the CRL cache (g_CRL) when validation starts, lg the log of earlier cache consultations. *)
 From Coq Require Import List ZArith NArith Bool.
 From MV Require Import Gen.Consts Gen.ConstsChain Chain.ChainModel Chain.ChainSpec Chain.ChainProofs.
 Import ListNotations.
 
 (* soundness: success (rc 0 and every authStatus PASS) implies a genuine path to one of the anchors *)
-Theorem c03_sound : forall (sig_ok : N -> N -> N -> N -> bool) rv chain anchors,
+Theorem c03_sound : forall (sig_ok : N -> N -> N -> N -> bool) K rv chain anchors lg,
   anchors <> [] -> Forall parsed (chain ++ anchors) -> hd_fresh chain ->
-  accepted (validate sig_ok true rv chain anchors) = true ->
-  genuine_path sig_ok rv chain anchors.
+  accepted (validate sig_ok true rv chain anchors (mkK K lg)) = true ->
+  genuine_path sig_ok K rv chain anchors.
 Proof. exact validate_sound. Qed.
 Print Assumptions c03_sound.
 
@@ -20,30 +21,30 @@ Print Assumptions c03_sound.
 Theorem c03_sound_pinned_refuted :
   exists sig_ok rv chain anchors,
     anchors <> [] /\ Forall parsed (chain ++ anchors) /\ hd_fresh chain /\
-    accepted (validate sig_ok false rv chain anchors) = true /\
-    ~ genuine_path sig_ok rv chain anchors.
+    accepted (validate sig_ok false rv chain anchors (mkK [] [])) = true /\
+    ~ genuine_path sig_ok [] rv chain anchors.
 Proof. exact validate_sound_pinned_refuted. Qed.
 Print Assumptions c03_sound_pinned_refuted.
 
 (* completeness, for the leaf-first order the TLS <= 1.2 path supplies: a genuine path that uses
    supported features is accepted, wherever its anchor stands in the list *)
-Theorem c03_complete : forall (sig_ok : N -> N -> N -> N -> bool) rv chain before a after,
-  supported_path sig_ok rv chain before a ->
-  accepted (validate sig_ok true rv chain (before ++ a :: after)) = true.
+Theorem c03_complete : forall (sig_ok : N -> N -> N -> N -> bool) K rv chain before a after lg,
+  supported_path sig_ok K rv chain before a ->
+  accepted (validate sig_ok true rv chain (before ++ a :: after) (mkK K lg)) = true.
 Proof. exact validate_complete. Qed.
 Print Assumptions c03_complete.
 
 (* called without trust anchors, success only says: consistent chain ending in a genuinely
    self-signed certificate (the TLS layer must still answer unknown_ca - C04) *)
-Theorem c03_noanchor : forall (sig_ok : N -> N -> N -> N -> bool) rv chain,
-  Forall parsed chain -> accepted (validate sig_ok true rv chain []) = true ->
-  self_contained sig_ok chain /\ Forall (valid_now rv) chain.
+Theorem c03_noanchor : forall (sig_ok : N -> N -> N -> N -> bool) K rv chain lg,
+  Forall parsed chain -> accepted (validate sig_ok true rv chain [] (mkK K lg)) = true ->
+  self_contained sig_ok K chain /\ Forall (valid_now rv) chain.
 Proof. exact validate_noanchor_sound. Qed.
 Print Assumptions c03_noanchor.
 
 Theorem c03_noanchor_pinned_refuted :
   exists sig_ok rv chain, Forall parsed chain /\
-    accepted (validate sig_ok false rv chain []) = true /\ ~ self_contained sig_ok chain.
+    accepted (validate sig_ok false rv chain [] (mkK [] [])) = true /\ ~ self_contained sig_ok [] chain.
 Proof. exact validate_noanchor_pinned_refuted. Qed.
 Print Assumptions c03_noanchor_pinned_refuted.
 
@@ -52,18 +53,49 @@ Print Assumptions c03_noanchor_pinned_refuted.
 Theorem c03_status_consistent_refuted :
   exists sig_ok rv chain anchors,
     anchors <> [] /\ Forall parsed (chain ++ anchors) /\ hd_fresh chain /\
-    v_rc (validate sig_ok true rv chain anchors) = 0%Z /\
-    ~ Forall (fun s => st s = c_PS_CERT_AUTH_PASS) (v_states (validate sig_ok true rv chain anchors)).
+    v_rc (validate sig_ok true rv chain anchors (mkK [] [])) = 0%Z /\
+    ~ Forall (fun s => st s = c_PS_CERT_AUTH_PASS) (v_states (validate sig_ok true rv chain anchors (mkK [] []))).
 Proof. exact status_consistent_refuted. Qed.
 Print Assumptions c03_status_consistent_refuted.
 
 (* what rc = 0 alone does guarantee: names, signatures, CA flags, revocation and path length *)
-Theorem c03_status_consistent_partial : forall (sig_ok : N -> N -> N -> N -> bool) rv chain anchors,
+Theorem c03_status_consistent_partial : forall (sig_ok : N -> N -> N -> N -> bool) K rv chain anchors lg,
   anchors <> [] -> Forall parsed (chain ++ anchors) ->
-  v_rc (validate sig_ok true rv chain anchors) = 0%Z ->
-  signed_path sig_ok chain anchors.
+  v_rc (validate sig_ok true rv chain anchors (mkK K lg)) = 0%Z ->
+  signed_path sig_ok K chain anchors.
 Proof. exact validate_rc0_signed_path. Qed.
 Print Assumptions c03_status_consistent_partial.
+
+(* revocation clause.  genuine_path (c03_sound) already says of every signed link that the CRL speaking for the
+   issuer name - the first one cached under it - does not revoke the certificate (ChainSpec.revoked_in: authenticated,
+   not stale, serial listed; serial numbers compared as DER INTEGER contents, so 00 C4 is not C4).  For a tidy cache
+   (one CRL per issuer name as psCRL_Update keeps it, none past nextUpdate) that is the property's clause verbatim:
+   no certificate on the path is listed in ANY authenticated CRL the application loaded under its issuer's name. *)
+Theorem c03_revocation : forall (sig_ok : N -> N -> N -> N -> bool) K rv chain anchors lg,
+  anchors <> [] -> Forall parsed (chain ++ anchors) -> hd_fresh chain -> cache_tidy K ->
+  accepted (validate sig_ok true rv chain anchors (mkK K lg)) = true ->
+  exists a, In a anchors /\ linked (step_unrevoked sig_ok K) (chain ++ [a]).
+Proof. exact validate_unrevoked. Qed.
+Print Assumptions c03_revocation.
+
+(* without the tidy cache the literal clause fails, by design of the cache: a CRL cached earlier under the same
+   issuer name (psCRL_Insert) shadows the authenticated one ... *)
+Theorem c03_revocation_shadowed_refuted :
+  exists sig_ok K rv chain anchors,
+    anchors <> [] /\ Forall parsed (chain ++ anchors) /\ hd_fresh chain /\ Forall crl_current K /\
+    accepted (validate sig_ok true rv chain anchors (mkK K [])) = true /\
+    exists c, In c chain /\ revoked_by_loaded_crl K c.
+Proof. exact revocation_shadowed_refuted. Qed.
+Print Assumptions c03_revocation_shadowed_refuted.
+
+(* ... and a CRL past its nextUpdate is reported (CRL_CHECK_CRL_EXPIRED) but not applied *)
+Theorem c03_revocation_stale_refuted :
+  exists sig_ok K rv chain anchors,
+    anchors <> [] /\ Forall parsed (chain ++ anchors) /\ hd_fresh chain /\ NoDup (map r_iss K) /\
+    accepted (validate sig_ok true rv chain anchors (mkK K [])) = true /\
+    exists c, In c chain /\ revoked_by_loaded_crl K c.
+Proof. exact revocation_stale_refuted. Qed.
+Print Assumptions c03_revocation_stale_refuted.
 
 (* parse-time gate: what reaches the validator is v3, carries no unknown critical extension, has
    matching inner / outer algorithm, and an enabled one (SHA-2; SHA-1 only on certificates whose
